@@ -1,5 +1,7 @@
 package main
 
+import "strings"
+
 // C11 — "the only mention of an include": one program per (carrier, container position, kind of
 // the included type) in which that position is the ONLY reference to the included file, so that
 // the import of the include in the emitted service / scope / types file hangs on exactly that
@@ -75,6 +77,49 @@ func c11Sweep() []c11SweepProg {
 				c11SweepCache = append(c11SweepCache, c11SweepProg{carrier, ps.name, kind,
 					&c11GProg{feat: map[string]bool{}, files: []*c11GFile{main, inc}}})
 			}
+		}
+	}
+	// the only mention of the include is a VALUE: a default / constant value that names a constant
+	// or an enum value of the included file, alone or inside list / map / struct literals — as the
+	// default of a method argument (service file) and, as controls, of a struct field and as a
+	// top-level constant (types file).
+	type valn struct {
+		name string
+		ty   func() *c11GTy
+		val  string
+	}
+	values := []valn{
+		{"const", func() *c11GTy { return c11TBase("i32") }, "incq.LIMIT"},
+		{"enum-value", func() *c11GTy { return &c11GTy{name: "incq.Shade"} }, "incq.Shade.DARK"}, // typed by the included enum
+		{"list-of-const", func() *c11GTy { return c11TList(c11TBase("i32")) }, "[1, incq.LIMIT, 3]"},
+		{"map-value-const", func() *c11GTy { return c11TMap(c11TBase("string"), c11TBase("i32")) }, "{\"a\": incq.LIMIT}"},
+		{"map-key-const", func() *c11GTy { return c11TMap(c11TBase("i32"), c11TBase("string")) }, "{incq.LIMIT: \"a\"}"},
+		{"struct-literal-field-const", func() *c11GTy { return &c11GTy{name: "Local"} }, "{\"n\": incq.LIMIT}"},
+		{"nested-list-map-const", func() *c11GTy { return c11TList(c11TMap(c11TBase("string"), c11TBase("i32"))) }, "[{\"k\": incq.LIMIT}]"},
+	}
+	for _, carrier := range []string{"arg-default", "struct-field-default", "constant"} {
+		for _, v := range values {
+			inc := &c11GFile{name: "incq"}
+			inc.enums = []*c11GEnum{{name: "Shade", vals: []string{"LIGHT", "DARK"}, nums: []int{-1, -1}}}
+			inc.consts = []*c11GConst{{name: "LIMIT", t: c11TBase("i32"), val: "7"}}
+			main := &c11GFile{name: "prog", includes: []string{"incq.frugal"}}
+			main.structs = []*c11GStruct{{kind: "struct", name: "Local", fields: []*c11GField{{id: 1, name: "n", t: c11TBase("i32")}}}}
+			m := &c11GMethod{name: "carry", args: []*c11GField{{id: 1, name: "first", t: c11TBase("i32")}}, ret: c11TBase("i32")}
+			switch carrier {
+			case "arg-default":
+				m.args = append(m.args, &c11GField{id: 2, name: "second", t: v.ty(), def: v.val})
+			case "struct-field-default":
+				main.structs = append(main.structs, &c11GStruct{kind: "struct", name: "Wrapper", fields: []*c11GField{{id: 1, name: "inner", t: v.ty(), def: v.val}}})
+			case "constant":
+				ref := ""
+				if !strings.ContainsAny(v.val, "[{") {
+					ref = v.val
+				}
+				main.consts = []*c11GConst{{name: "PICKED", t: v.ty(), val: v.val, ref: ref}}
+			}
+			main.services = []*c11GService{{name: "Courier", methods: []*c11GMethod{m}}}
+			c11SweepCache = append(c11SweepCache, c11SweepProg{carrier, "value:" + v.name, "value",
+				&c11GProg{feat: map[string]bool{}, files: []*c11GFile{main, inc}}})
 		}
 	}
 	return c11SweepCache
